@@ -13,12 +13,15 @@ import (
 	"encoding/json"
 	"fmt"
 	"io"
+	"net/netip"
+	"os"
 	"sort"
 	"strings"
 	"sync/atomic"
 	"time"
 
 	"github.com/AdguardTeam/AdGuardHome/internal/filtering"
+	"github.com/AdguardTeam/AdGuardHome/internal/schedule"
 	"github.com/AdguardTeam/AdGuardHome/internal/verifx/lib"
 	"github.com/AdguardTeam/golibs/log"
 )
@@ -116,7 +119,21 @@ func newFilter(dataDir string, table []entry) (d *filtering.DNSFilter, err error
 	for i, e := range table {
 		rws[i] = &filtering.LegacyRewrite{Domain: e.Domain, Answer: e.Answer}
 	}
-	return filtering.New(&filtering.Config{DataDir: dataDir, Rewrites: rws}, nil)
+	return filtering.New(&filtering.Config{DataDir: dataDir, Rewrites: rws, BlockingMode: filtering.BlockingModeDefault}, nil)
+}
+
+// newServerFilter is newFilter with the additional settings a dnsforward.Server
+// needs (as the package's own tests set them).
+func newServerFilter(dataDir string, table []entry) (d *filtering.DNSFilter, err error) {
+	rws := make([]*filtering.LegacyRewrite, len(table))
+	for i, e := range table {
+		rws[i] = &filtering.LegacyRewrite{Domain: e.Domain, Answer: e.Answer}
+	}
+	return filtering.New(&filtering.Config{
+		DataDir: dataDir, Rewrites: rws, BlockingMode: filtering.BlockingModeDefault,
+		ApplyClientFiltering: func(string, netip.Addr, *filtering.Settings) {},
+		BlockedServices:      &filtering.BlockedServices{Schedule: schedule.EmptyWeekly()},
+	}, nil)
 }
 
 // observe runs one CheckHost and maps the result to the observation string of
@@ -458,6 +475,9 @@ func run(c *lib.Ctx) {
 		}()
 		idx := 0
 		for _, p := range hostPlans(c.Tier) {
+			if os.Getenv("C06_PART") == "wire" { // development switch
+				break
+			}
 			complete := true
 			enumerate(p.alpha, p.n, func(base []entry) bool {
 				idx++
